@@ -702,6 +702,14 @@ impl TxRecoveryState {
                     shards,
                 } => {
                     abort_intents.insert(*tx_id, (reason.clone(), shards.clone()));
+                    // The intent is logged right before the abort goes out to the
+                    // participants (timeout sweep): from here on the transaction is being
+                    // aborted. Coming back as Prepared it could still be committed.
+                    if let Some(tx) = in_progress.get_mut(tx_id) {
+                        if tx.2 == TxPhase::Prepared {
+                            tx.2 = TxPhase::Aborting;
+                        }
+                    }
                 },
             }
         }
